@@ -273,6 +273,26 @@ def ax0(seq):
     return [int(x) - 1 for x in seq]
 
 
+def _index_tuple(spec):
+    """index spec of the specification -> Python index tuple; selections that are arithmetic progressions are
+    passed as slice objects, ascending ones alternately as bool masks, the others as integer arrays"""
+    out = []
+    for sp in spec:
+        if sp['k'] == 'all':
+            out.append(slice(None))
+        elif sp['k'] == 'int':
+            out.append(int(sp['i']))
+        else:
+            sel = [int(x) for x in sp['sel']]
+            if len(sel) >= 2 and len({b - a for a, b in zip(sel, sel[1:])}) == 1:
+                step = sel[1] - sel[0]
+                stop = sel[-1] + step
+                out.append(slice(sel[0], stop if stop >= 0 else None, step))
+            else:
+                out.append(np.array(sel, dtype=np.intp))
+    return tuple(out)
+
+
 def apply_step(pool, l, chinfo):
     """Execute the operation described by record `l` on pool (dict slot -> Array).
     Returns (kind, value): ('store', Array) | ('inplace', Array) | ('scalar', complex)."""
@@ -375,6 +395,34 @@ def apply_step(pool, l, chinfo):
             a = a2
         a[tuple(int(i) for i in l['idx'])] = z
         return 'inplace', a
+    if op == 'combine_legs2':
+        return 'store', a.combine_legs([ax0(g) for g in l['groups']], qconj=[int(q) for q in l['qconj']])
+    if op == 'getitem':
+        return 'store', a[_index_tuple(l['spec'])]
+    if op == 'setitem_scaled':
+        z = gauss(l['z'])
+        if isinstance(z, complex) and a.dtype.kind != 'c':
+            a2 = a.astype(np.complex128)
+            pool[l['a']] = a2
+            a = a2
+        idx = _index_tuple(l['spec'])
+        part = a[idx]
+        a[idx] = part * z
+        return 'inplace', a
+    if op == 'iswapaxes':
+        a.iswapaxes(l['x'] - 1, l['y'] - 1)
+        return 'inplace', a
+    if op == 'isort_qdata':
+        a.isort_qdata()
+        return 'inplace', a
+    if op == 'ipurge_zeros':
+        a.ipurge_zeros()
+        return 'inplace', a
+    if op == 'extend':
+        return 'store', a.extend(l['x'] - 1, build_leg(chinfo, l['extra']))
+    if op == 'add_leg':
+        leg = pool[l['b']].legs[l['y'] - 1]
+        return 'store', a.add_leg(leg, l['i'], axis=l['x'] - 1, label=render_label(l['label']))
     if op == 'norm2':
         n = npc.norm(a)
         return 'scalar', complex(float(n) ** 2)
@@ -480,7 +528,7 @@ def _run_one(args):
             init = None
             hs = []
             for st in tlaval.iter_dump(dump + '.dump'):
-                if st['pending'].get('op') != 'nil':
+                if st['pending'].get('op') != 'nil' or st['cls'] != 'none':
                     continue
                 if not st['hist']:
                     init = st['pool']
@@ -493,7 +541,7 @@ def _run_one(args):
             os.makedirs(os.path.join(d, 'tr'))
             prefix = os.path.join(d, 'tr', 't')
             res = tlc.run(spec, cfgp, workers=workers, timeout=timeout, simulate=dict(num=sim_num, file=prefix),
-                          depth=2 * sim_ops + 1, seed=seed, coverage=False)
+                          depth=3 * sim_ops + 1, seed=seed, coverage=False)
             if tlc.machinery_failed(res):
                 out['error'] = 'SIM: exit %s\n%s' % (res.exit, res.stdout[-3000:])
                 return out
